@@ -1757,7 +1757,7 @@ class VM:
 
             # Create a new function that wraps the original
             bound_func = JSFunction(
-                name=func.name,
+                name="bound " + func.name,
                 params=func.params[
                     len(bound_args) :
                 ],  # Remaining params after bound args
